@@ -401,6 +401,7 @@ def run(ch: Checker) -> None:
     assert isinstance(probe15, ast.Assign) and probe15.targets[0].attr == 'suppress_ragged_eofs'      # type: ignore[attr-defined]
     if n15 == 0:
         ch.ok('C07.15', None, 'suppress_ragged_eofs', 'no TLS socket has its end-of-stream handling changed (matcher verified on a built-in example)', module_rel='proxy/')
+    ch.import_rules('C05', {'C05.17': 'C07.16'}, 'a canned reply queued for one client is the same object for every client of the worker: whoever releases a queued memoryview destroys the output still owed to the others')
     ch.import_rules('C17', {'C17.3': 'C07.14'}, 'queued output is flushed only if write readiness reaches the handler whenever the socket is writable, also while it is readable')
     ch.import_rules('C10', {'C10.2': 'C07.10'}, 'threaded mode flushes pending output in shutdown() through the per-connection selector; descriptors left registered by an exceptional exit of _run_once make that flush fail before it wrote anything')
 
